@@ -4,6 +4,7 @@ import (
 	"fmt"
 	"math/big"
 	"testing"
+	"time"
 
 	"github.com/ethereum/go-ethereum/common"
 	"github.com/ethereum/go-ethereum/crypto"
@@ -18,10 +19,10 @@ import (
 
 // pinnedWorld creates a BSC client at genesis height g with the n lowest keys of a fixed seed as
 // validator list (in force and announced), sealed by gSealer (index into the sorted list).
-func pinnedWorld(n int, E, g uint64, gSealer int) (*world, []common.Address) {
+func pinnedWorld(r *rec.Recorder, n int, E, g uint64, gSealer int) (*world, []common.Address) {
 	c := baseChain()
 	ctx, _ := c.Ctx().CacheContext()
-	w := &world{r: rec.For("pinned-scratch", ""), c: c, ctx: ctx, idx: map[common.Address]int{}, classes: map[string]bool{}, rejectedAt: map[uint64]bool{}, chainID: 56}
+	w := &world{r: r, c: c, ctx: ctx, idx: map[common.Address]int{}, classes: map[string]bool{}, rejectedAt: map[uint64]bool{}, chainID: 56}
 	var list []common.Address
 	for i := 0; i < n+1; i++ {
 		k := bscsim.KeyFromSeed([]byte("c09-pinned"), i)
@@ -95,7 +96,7 @@ func TestC09_Known_LowHeightRecentWindow(t *testing.T) {
 	}
 	accepted := []string{}
 	for _, sc := range []scenario{{2, 2, 0, 0}, {9, 6, 0, 0}, {9, 6, 0, 2}, {2, 2, 200, 0}, {9, 6, 600, 2}} {
-		w, list := pinnedWorld(sc.n, sc.E, sc.g, 0)
+		w, list := pinnedWorld(r, sc.n, sc.E, sc.g, 0)
 		for i := 0; i < sc.advance; i++ {
 			el := w.eligible()
 			h := w.plainNext(el[0])
@@ -137,4 +138,61 @@ func TestC09_Known_LowHeightRecentWindow(t *testing.T) {
 		return
 	}
 	t.Fatalf("recently-signed sealer accepted at low heights: %v", accepted)
+}
+
+// TestC09_Known_PruneDeletesSigner: N = 6 (a sealer must stay out for 3 blocks), trusting period 1000 s.
+// k0 seals the genesis header #600 whose consensus state is 990 s old; k1 seals #601; 20 s of chain
+// time pass (the consensus state of #600 is now expired, that of #601 is not); k2 seals #602 - during
+// that update the expired consensus state is pruned together with the recent-signer record of #600;
+// k0 then seals #603 although it sealed one of the last 3 blocks. Control: the same sequence without
+// the 20 s (nothing expires) rejects #603.
+func TestC09_Known_PruneDeletesSigner(t *testing.T) {
+	r := rec.For("TestC09_Known_PruneDeletesSigner", "pinned: expiry of the earliest consensus state inside the recent window deletes that height's signer record")
+	run := func(pass time.Duration) error {
+		w, list := pinnedWorld(r, 6, 6, 600, 0)
+		k := w.c.App.XIBCKeeper.ClientKeeper
+		csI, _ := k.GetClientState(w.ctx, clientName)
+		cs := csI.(*bsctypes.ClientState)
+		cs.TrustingPeriod = 1000
+		k.SetClientState(w.ctx, clientName, cs)
+		now := uint64(w.c.Now.Unix())
+		consI, _ := k.GetClientConsensusState(w.ctx, clientName, cs.Header.Height)
+		cons := consI.(*bsctypes.ConsensusState)
+		cons.Timestamp = now - 990
+		k.SetClientConsensusState(w.ctx, clientName, cs.Header.Height, cons)
+		w.headTime = now
+		step := func(i int) error {
+			h := w.plainNext(list[i])
+			err := w.deliver(h.ToProto())
+			if err == nil {
+				w.m.Apply(describe(h, ptr(list[i])))
+				w.headTime = h.Time
+			}
+			return err
+		}
+		kit.Must(step(1), "pinned #601")
+		w.ctx = w.ctx.WithBlockTime(w.c.Now.Add(pass))
+		kit.Must(step(2), "pinned #602")
+		if w.m.LastSealedWithin(list[0], 603) != 3 {
+			kit.Failf("pinned: k0 is not inside the window")
+		}
+		return step(0)
+	}
+	if err := run(0); err == nil {
+		t.Fatalf("control failed: without expiry the sealer of #600 was accepted at #603")
+	}
+	err := run(20 * time.Second)
+	r.Case("expiry", true, func() interface{} {
+		return map[string]interface{}{"N": 6, "trusting_period_s": 1000, "genesis_age_s": 990, "time_passed_s": 20, "603_by_sealer_of_600_accepted": err == nil}
+	})
+	r.Case("control", true, nil)
+	if err != nil {
+		return // no longer reproduces
+	}
+	if kf.Listed("C09", "prune-deletes-signer") {
+		kf.Report("C09", "prune-deletes-signer")
+		r.KnownFinding("prune-deletes-signer", "sealer of #600 accepted at #603 (N=6) after the consensus state of #600 expired")
+		return
+	}
+	t.Fatalf("sealer of #600 accepted at #603 (N=6, window 3) after the consensus state of #600 expired and was pruned")
 }
